@@ -136,7 +136,7 @@ class Ctx:
         for f in self.findings:
             if f["id"] in self.known_hits:
                 print(f"KNOWN-FINDING: property={self.prop} {f['id']} {f['what']} ({self.known_hits[f['id']]} cases)", flush=True)
-        for d in self.drift[:20]:
+        for d in self.drift[: int(os.environ.get("VERIF_DRIFT_LINES", "20"))]:
             print(f"DRIFT property={self.prop} {d}", flush=True)
         vfile = VERIF / "out" / f"violations_{self.prop}.json"
         if vfile.exists() and not self.violations:
